@@ -160,8 +160,24 @@ def make_case(r, lexical_corner=False):
         rules = [realrun.rule(pred, 3, '(error "unexpected end of file")\n',
                               ''),
                  realrun.rule('all', 0, '', '')]
+    glue = lexical_corner and not unbalanced and r.random() < 0.3
+    if glue:
+        # two top-level atoms that a reduction step makes neighbours: glued
+        # together (in the file the command sees) they would be another
+        # token, which this command looks for
+        a, b = r.choice([('ke', 'ep'), ('che', 'ck'), ('"a"', '"b"'),
+                         ('|x', 'y|')]) if False else r.choice(
+                             [('ke', 'ep'), ('che', 'ck'), ('12', '34')])
+        lines = text.rstrip('\n').split('\n')
+        at = r.randint(0, len(lines))
+        lines[at:at] = [a, '(guard)', b]
+        text = '\n'.join(lines) + '\n'
+        q = realrun.pct
+        pred = (f'has:{q(a + b)} has:{q(a)} has:guard & has:{q(b)} & |')
+        rules = [realrun.rule(pred, 1, 'bug\n', ''),
+                 realrun.rule('all', 0, 'ok\n', '')]
     nontext = None
-    if not unbalanced and r.random() < 0.12:
+    if not unbalanced and not glue and r.random() < 0.12:
         # a command whose messages are not text: the two classes differ in
         # one byte that is not valid UTF-8 (same exit status)
         junk = r.sample(['%FF', '%FE', '%80', '%C3%28', '%E9'], 2)
@@ -206,6 +222,7 @@ def make_case(r, lexical_corner=False):
         'lexical_corner': lexical_corner,
         'unbalanced_input': unbalanced,
         'wide': wide,
+        'glue': glue,
         'cc_same_basename': same_basename,
         'non_text_output': nontext,
     }
@@ -226,6 +243,8 @@ def run_case(res, r, wd, case):
         res.count('runs_on_unbalanced_input')
     if desc.get('wide'):
         res.count('runs_on_wide_inputs')
+    if desc.get('glue'):
+        res.count('runs_with_atoms_that_would_glue')
     verdict = judge_run(res, r, run, rules, cc_rules, cmp_opts, cc_ignore,
                         desc)
     res.count(f'verdict_{verdict}')
